@@ -5,6 +5,13 @@
          "UNGUARDED:<lemma>"  the site panics on short values; the lemma gives the exact condition; known finding
          "reviewed: …"        guard seen by hand, outside what the translator resolves
          "loop index: …"      index/slice bound is the loop variable of a loop over the same value
+         "value: …" "map: …" "nil-safe: …" "loop-bound: …" "sort-less: …" "last: …"
+                              the class the type-aware table Gen/OpSites.v gives the site (checked by
+                              C06OpsObl.accounted_refined): no dereference / no bounds failure by the semantics of Go
+         "ops-model: <def>"   the shape model (TotalOps.v, TotalJson.v) performs this dereference in <def>; its safety on
+                              well-formed shapes is C06_ops_total_partial / C06_json_total_partial /
+                              C06_handlers_total_partial, and the coverage list OpsCovered.ops_cover is checked against
+                              Gen/OpSites.v (C06OpsObl.ops_sites_covered, ops_cover_exact)
          "search-only: …"     NOT proved: change detector only (a new site of this kind in the source makes
                               the obligation false); absence of panics there rests on the oracle.
    A slice, index or optional dereference that appears in the source and is neither discharged by its
@@ -15,80 +22,80 @@ From ACH Require Import PartialTable.
 Open Scope string_scope.
 
 Definition accounted : list acct := [
-  mkacct "ach.File.ValidateWith" "b.GetHeader().StandardEntryClassCode" "search-only: optional sub-record dereferenced without a syntactically dominating nil test (File.IsADV, called first, installs a header on every batch it visits)";
-  mkacct "ach.Addenda98.Validate" "changeCodeDict[addenda98.ChangeCode]" "search-only: map lookup (never panics), not told apart from an index syntactically";
-  mkacct "ach.Addenda98.ChangeCodeField" "changeCodeDict[addenda98.ChangeCode]" "search-only: map lookup (never panics), not told apart from an index syntactically";
-  mkacct "ach.LookupChangeCode" "changeCodeDict[strings.ToUpper(code)]" "search-only: map lookup (never panics), not told apart from an index syntactically";
-  mkacct "ach.makeChangeCodeDict" "dict[codes[i].Code]" "search-only: map lookup (never panics), not told apart from an index syntactically";
+  mkacct "ach.File.ValidateWith" "b.GetHeader().StandardEntryClassCode" "ops-model: file_validate (TotalOps/TotalJson) dereferences this pointer; no panic on well-formed shapes (C06_ops_total_partial / C06_json_total_partial / C06_handlers_total_partial), panic reproduced on the others (correspondence c06ops)";
+  mkacct "ach.Addenda98.Validate" "changeCodeDict[addenda98.ChangeCode]" "map: the operand is a map (map[string]*ChangeCode); a map lookup never panics (Gen/OpSites)";
+  mkacct "ach.Addenda98.ChangeCodeField" "changeCodeDict[addenda98.ChangeCode]" "map: the operand is a map (map[string]*ChangeCode); a map lookup never panics (Gen/OpSites)";
+  mkacct "ach.LookupChangeCode" "changeCodeDict[strings.ToUpper(code)]" "map: the operand is a map (map[string]*ChangeCode); a map lookup never panics (Gen/OpSites)";
+  mkacct "ach.makeChangeCodeDict" "dict[codes[i].Code]" "map: the operand is a map (map[string]*ChangeCode); a map lookup never panics (Gen/OpSites)";
   mkacct "ach.Addenda98.ParseCorrectedData" "data[:9]" "reviewed: inside `if n := len(data); n > 9` (the alias n is re-declared elsewhere in the function, so the translator leaves the guard opaque)";
   mkacct "ach.Addenda98.ParseCorrectedData" "data[9:]" "reviewed: reached only after the n > 9 branch (the else branch returns)";
   mkacct "ach.first" "data[:size]" "model:first_total - rune count >= size implies byte length >= size";
-  mkacct "ach.Addenda98Refused.Validate" "changeCodeDict[addenda98Refused.RefusedChangeCode]" "search-only: map lookup (never panics), not told apart from an index syntactically";
-  mkacct "ach.Addenda98Refused.Validate" "changeCodeDict[addenda98Refused.ChangeCode]" "search-only: map lookup (never panics), not told apart from an index syntactically";
-  mkacct "ach.Addenda98Refused.RefusedChangeCodeField" "changeCodeDict[addenda98Refused.RefusedChangeCode]" "search-only: map lookup (never panics), not told apart from an index syntactically";
-  mkacct "ach.Addenda98Refused.ChangeCodeField" "changeCodeDict[addenda98Refused.ChangeCode]" "search-only: map lookup (never panics), not told apart from an index syntactically";
-  mkacct "ach.Addenda99.Validate" "returnCodeDict[Addenda99.ReturnCode]" "search-only: map lookup (never panics), not told apart from an index syntactically";
+  mkacct "ach.Addenda98Refused.Validate" "changeCodeDict[addenda98Refused.RefusedChangeCode]" "map: the operand is a map (map[string]*ChangeCode); a map lookup never panics (Gen/OpSites)";
+  mkacct "ach.Addenda98Refused.Validate" "changeCodeDict[addenda98Refused.ChangeCode]" "map: the operand is a map (map[string]*ChangeCode); a map lookup never panics (Gen/OpSites)";
+  mkacct "ach.Addenda98Refused.RefusedChangeCodeField" "changeCodeDict[addenda98Refused.RefusedChangeCode]" "map: the operand is a map (map[string]*ChangeCode); a map lookup never panics (Gen/OpSites)";
+  mkacct "ach.Addenda98Refused.ChangeCodeField" "changeCodeDict[addenda98Refused.ChangeCode]" "map: the operand is a map (map[string]*ChangeCode); a map lookup never panics (Gen/OpSites)";
+  mkacct "ach.Addenda99.Validate" "returnCodeDict[Addenda99.ReturnCode]" "map: the operand is a map (map[string]*ReturnCode); a map lookup never panics (Gen/OpSites)";
   mkacct "ach.Addenda99.IATPaymentAmountField" "Addenda99.AddendaInformation[0:10]" "UNGUARDED:iat_payment_amount_iff - known finding panic:ach.(*Addenda99).IATPaymentAmountField (no library operation calls it)";
   mkacct "ach.Addenda99.IATAddendaInformationField" "Addenda99.AddendaInformation[9:44]" "UNGUARDED:iat_addenda_information_iff - known finding panic:ach.(*Addenda99).IATAddendaInformationField (no library operation calls it)";
   mkacct "ach.Addenda99.AddendaInformationReturnTraceNumber" "Addenda99.AddendaInformation[3:18]" "UNGUARDED:a99_return_trace_iff - known finding panic:ach.(*Addenda99).AddendaInformationReturnTraceNumber (no library operation calls it)";
   mkacct "ach.Addenda99.AddendaInformationReturnSettlementDate" "Addenda99.AddendaInformation[18:21]" "UNGUARDED:a99_settlement_date_iff - known finding panic:ach.(*Addenda99).AddendaInformationReturnSettlementDate (no library operation calls it)";
   mkacct "ach.Addenda99.AddendaInformationReturnReasonCode" "Addenda99.AddendaInformation[21:23]" "UNGUARDED:a99_reason_code_iff - known finding panic:ach.(*Addenda99).AddendaInformationReturnReasonCode (no library operation calls it)";
   mkacct "ach.Addenda99.AddendaInformationExtra" "Addenda99.AddendaInformation[23:]" "UNGUARDED:a99_extra_iff - known finding panic:ach.(*Addenda99).AddendaInformationExtra (no library operation calls it)";
-  mkacct "ach.Addenda99.ReturnCodeField" "returnCodeDict[Addenda99.ReturnCode]" "search-only: map lookup (never panics), not told apart from an index syntactically";
-  mkacct "ach.LookupReturnCode" "returnCodeDict[strings.ToUpper(code)]" "search-only: map lookup (never panics), not told apart from an index syntactically";
-  mkacct "ach.makeReturnCodeDict" "dict[codes[i].Code]" "search-only: map lookup (never panics), not told apart from an index syntactically";
+  mkacct "ach.Addenda99.ReturnCodeField" "returnCodeDict[Addenda99.ReturnCode]" "map: the operand is a map (map[string]*ReturnCode); a map lookup never panics (Gen/OpSites)";
+  mkacct "ach.LookupReturnCode" "returnCodeDict[strings.ToUpper(code)]" "map: the operand is a map (map[string]*ReturnCode); a map lookup never panics (Gen/OpSites)";
+  mkacct "ach.makeReturnCodeDict" "dict[codes[i].Code]" "map: the operand is a map (map[string]*ReturnCode); a map lookup never panics (Gen/OpSites)";
   mkacct "ach.ADVEntryDetail.SetRDFI" "s[:8]" "model:set_rdfi_total - s := stringField(rdfi, 9) has at least 9 bytes";
   mkacct "ach.ADVEntryDetail.SetRDFI" "s[8:9]" "model:set_rdfi_total - s := stringField(rdfi, 9) has at least 9 bytes";
-  mkacct "ach.Batch.verify" "batch.Control.ServiceClassCode" "search-only: optional sub-record dereferenced without a syntactically dominating nil test (constructor / reader invariants are not modelled)";
-  mkacct "ach.Batch.verify" "batch.Control.CompanyIdentification" "search-only: optional sub-record dereferenced without a syntactically dominating nil test (constructor / reader invariants are not modelled)";
-  mkacct "ach.Batch.verify" "batch.Control.ODFIIdentification" "search-only: optional sub-record dereferenced without a syntactically dominating nil test (constructor / reader invariants are not modelled)";
-  mkacct "ach.Batch.verify" "batch.Control.BatchNumber" "search-only: optional sub-record dereferenced without a syntactically dominating nil test (constructor / reader invariants are not modelled)";
-  mkacct "ach.Batch.verify" "batch.ADVControl.ServiceClassCode" "search-only: optional sub-record dereferenced without a syntactically dominating nil test (constructor / reader invariants are not modelled)";
-  mkacct "ach.Batch.verify" "batch.ADVControl.ODFIIdentification" "search-only: optional sub-record dereferenced without a syntactically dominating nil test (constructor / reader invariants are not modelled)";
-  mkacct "ach.Batch.verify" "batch.ADVControl.BatchNumber" "search-only: optional sub-record dereferenced without a syntactically dominating nil test (constructor / reader invariants are not modelled)";
-  mkacct "ach.Batch.isFieldInclusion" "batch.Control.Validate" "search-only: optional sub-record dereferenced without a syntactically dominating nil test (constructor / reader invariants are not modelled)";
-  mkacct "ach.Batch.isFieldInclusion" "batch.ADVControl.Validate" "search-only: optional sub-record dereferenced without a syntactically dominating nil test (constructor / reader invariants are not modelled)";
-  mkacct "ach.Batch.isBatchEntryCount" "batch.Control.EntryAddendaCount" "search-only: optional sub-record dereferenced without a syntactically dominating nil test (constructor / reader invariants are not modelled)";
-  mkacct "ach.Batch.isBatchEntryCount" "batch.ADVControl.EntryAddendaCount" "search-only: optional sub-record dereferenced without a syntactically dominating nil test (constructor / reader invariants are not modelled)";
-  mkacct "ach.Batch.isBatchAmount" "batch.Control.TotalDebitEntryDollarAmount" "search-only: optional sub-record dereferenced without a syntactically dominating nil test (constructor / reader invariants are not modelled)";
-  mkacct "ach.Batch.isBatchAmount" "batch.Control.TotalCreditEntryDollarAmount" "search-only: optional sub-record dereferenced without a syntactically dominating nil test (constructor / reader invariants are not modelled)";
-  mkacct "ach.Batch.isBatchAmount" "batch.ADVControl.TotalDebitEntryDollarAmount" "search-only: optional sub-record dereferenced without a syntactically dominating nil test (constructor / reader invariants are not modelled)";
-  mkacct "ach.Batch.isBatchAmount" "batch.ADVControl.TotalCreditEntryDollarAmount" "search-only: optional sub-record dereferenced without a syntactically dominating nil test (constructor / reader invariants are not modelled)";
-  mkacct "ach.Batch.isEntryHash" "batch.Control.EntryHash" "search-only: optional sub-record dereferenced without a syntactically dominating nil test (constructor / reader invariants are not modelled)";
-  mkacct "ach.Batch.isEntryHash" "batch.ADVControl.EntryHash" "search-only: optional sub-record dereferenced without a syntactically dominating nil test (constructor / reader invariants are not modelled)";
-  mkacct "ach.Batch.isCategory" "batch.GetEntries()[0]" "reviewed: verify() rejects a batch without entries before isCategory";
-  mkacct "ach.Batch.isCategory" "batch.Entries[i]" "search-only: index variable bounded by a loop condition or an earlier check, not resolved by the translator";
-  mkacct "ach.Batch.isCategory" "batch.GetADVEntries()[0]" "reviewed: verify() rejects an ADV batch without entries before isCategory";
-  mkacct "ach.Batch.isCategory" "batch.ADVEntries[i]" "search-only: index variable bounded by a loop condition or an earlier check, not resolved by the translator";
-  mkacct "ach.Batch.IsADV" "batch.GetHeader().StandardEntryClassCode" "search-only: optional sub-record dereferenced without a syntactically dominating nil test (constructor / reader invariants are not modelled)";
-  mkacct "ach.Batch.upsertOffsets" "b.Entries[i]" "search-only: index variable bounded by a loop condition or an earlier check, not resolved by the translator";
-  mkacct "ach.Batch.upsertOffsets" "b.Control.TotalCreditEntryDollarAmount" "search-only: optional sub-record dereferenced without a syntactically dominating nil test (constructor / reader invariants are not modelled)";
-  mkacct "ach.Batch.upsertOffsets" "b.Control.TotalDebitEntryDollarAmount" "search-only: optional sub-record dereferenced without a syntactically dominating nil test (constructor / reader invariants are not modelled)";
-  mkacct "ach.Batch.upsertOffsets" "b.Control.EntryAddendaCount" "search-only: optional sub-record dereferenced without a syntactically dominating nil test (constructor / reader invariants are not modelled)";
+  mkacct "ach.Batch.verify" "batch.Control.ServiceClassCode" "ops-model: verify (TotalOps/TotalJson) dereferences this pointer; no panic on well-formed shapes (C06_ops_total_partial / C06_json_total_partial / C06_handlers_total_partial), panic reproduced on the others (correspondence c06ops)";
+  mkacct "ach.Batch.verify" "batch.Control.CompanyIdentification" "ops-model: verify (TotalOps/TotalJson) dereferences this pointer; no panic on well-formed shapes (C06_ops_total_partial / C06_json_total_partial / C06_handlers_total_partial), panic reproduced on the others (correspondence c06ops)";
+  mkacct "ach.Batch.verify" "batch.Control.ODFIIdentification" "ops-model: verify (TotalOps/TotalJson) dereferences this pointer; no panic on well-formed shapes (C06_ops_total_partial / C06_json_total_partial / C06_handlers_total_partial), panic reproduced on the others (correspondence c06ops)";
+  mkacct "ach.Batch.verify" "batch.Control.BatchNumber" "ops-model: verify (TotalOps/TotalJson) dereferences this pointer; no panic on well-formed shapes (C06_ops_total_partial / C06_json_total_partial / C06_handlers_total_partial), panic reproduced on the others (correspondence c06ops)";
+  mkacct "ach.Batch.verify" "batch.ADVControl.ServiceClassCode" "ops-model: verify (TotalOps/TotalJson) dereferences this pointer; no panic on well-formed shapes (C06_ops_total_partial / C06_json_total_partial / C06_handlers_total_partial), panic reproduced on the others (correspondence c06ops)";
+  mkacct "ach.Batch.verify" "batch.ADVControl.ODFIIdentification" "ops-model: verify (TotalOps/TotalJson) dereferences this pointer; no panic on well-formed shapes (C06_ops_total_partial / C06_json_total_partial / C06_handlers_total_partial), panic reproduced on the others (correspondence c06ops)";
+  mkacct "ach.Batch.verify" "batch.ADVControl.BatchNumber" "ops-model: verify (TotalOps/TotalJson) dereferences this pointer; no panic on well-formed shapes (C06_ops_total_partial / C06_json_total_partial / C06_handlers_total_partial), panic reproduced on the others (correspondence c06ops)";
+  mkacct "ach.Batch.isFieldInclusion" "batch.Control.Validate" "ops-model: is_field_inclusion (TotalOps/TotalJson) dereferences this pointer; no panic on well-formed shapes (C06_ops_total_partial / C06_json_total_partial / C06_handlers_total_partial), panic reproduced on the others (correspondence c06ops)";
+  mkacct "ach.Batch.isFieldInclusion" "batch.ADVControl.Validate" "ops-model: is_field_inclusion (TotalOps/TotalJson) dereferences this pointer; no panic on well-formed shapes (C06_ops_total_partial / C06_json_total_partial / C06_handlers_total_partial), panic reproduced on the others (correspondence c06ops)";
+  mkacct "ach.Batch.isBatchEntryCount" "batch.Control.EntryAddendaCount" "ops-model: is_batch_entry_count (TotalOps/TotalJson) dereferences this pointer; no panic on well-formed shapes (C06_ops_total_partial / C06_json_total_partial / C06_handlers_total_partial), panic reproduced on the others (correspondence c06ops)";
+  mkacct "ach.Batch.isBatchEntryCount" "batch.ADVControl.EntryAddendaCount" "ops-model: is_batch_entry_count (TotalOps/TotalJson) dereferences this pointer; no panic on well-formed shapes (C06_ops_total_partial / C06_json_total_partial / C06_handlers_total_partial), panic reproduced on the others (correspondence c06ops)";
+  mkacct "ach.Batch.isBatchAmount" "batch.Control.TotalDebitEntryDollarAmount" "ops-model: is_batch_amount (TotalOps/TotalJson) dereferences this pointer; no panic on well-formed shapes (C06_ops_total_partial / C06_json_total_partial / C06_handlers_total_partial), panic reproduced on the others (correspondence c06ops)";
+  mkacct "ach.Batch.isBatchAmount" "batch.Control.TotalCreditEntryDollarAmount" "ops-model: is_batch_amount (TotalOps/TotalJson) dereferences this pointer; no panic on well-formed shapes (C06_ops_total_partial / C06_json_total_partial / C06_handlers_total_partial), panic reproduced on the others (correspondence c06ops)";
+  mkacct "ach.Batch.isBatchAmount" "batch.ADVControl.TotalDebitEntryDollarAmount" "ops-model: is_batch_amount (TotalOps/TotalJson) dereferences this pointer; no panic on well-formed shapes (C06_ops_total_partial / C06_json_total_partial / C06_handlers_total_partial), panic reproduced on the others (correspondence c06ops)";
+  mkacct "ach.Batch.isBatchAmount" "batch.ADVControl.TotalCreditEntryDollarAmount" "ops-model: is_batch_amount (TotalOps/TotalJson) dereferences this pointer; no panic on well-formed shapes (C06_ops_total_partial / C06_json_total_partial / C06_handlers_total_partial), panic reproduced on the others (correspondence c06ops)";
+  mkacct "ach.Batch.isEntryHash" "batch.Control.EntryHash" "ops-model: is_entry_hash (TotalOps/TotalJson) dereferences this pointer; no panic on well-formed shapes (C06_ops_total_partial / C06_json_total_partial / C06_handlers_total_partial), panic reproduced on the others (correspondence c06ops)";
+  mkacct "ach.Batch.isEntryHash" "batch.ADVControl.EntryHash" "ops-model: is_entry_hash (TotalOps/TotalJson) dereferences this pointer; no panic on well-formed shapes (C06_ops_total_partial / C06_json_total_partial / C06_handlers_total_partial), panic reproduced on the others (correspondence c06ops)";
+  mkacct "ach.Batch.isCategory" "batch.GetEntries()[0]" "reviewed: inside the else of `if len(batch.Entries) == 0 { return … }` (fix 7f797c26; verify() only rejects a batch that has neither entries nor ADV entries)";
+  mkacct "ach.Batch.isCategory" "batch.Entries[i]" "loop-bound: index variable of the enclosing for loop over the same value, not assigned before the site (Gen/OpSites)";
+  mkacct "ach.Batch.isCategory" "batch.GetADVEntries()[0]" "reviewed: after `if len(batch.ADVEntries) == 0 { return … }` (fix 7f797c26)";
+  mkacct "ach.Batch.isCategory" "batch.ADVEntries[i]" "loop-bound: index variable of the enclosing for loop over the same value, not assigned before the site (Gen/OpSites)";
+  mkacct "ach.Batch.IsADV" "batch.GetHeader().StandardEntryClassCode" "ops-model: is_adv (TotalOps/TotalJson) dereferences this pointer; no panic on well-formed shapes (C06_ops_total_partial / C06_json_total_partial / C06_handlers_total_partial), panic reproduced on the others (correspondence c06ops)";
+  mkacct "ach.Batch.upsertOffsets" "b.Entries[i]" "loop-bound: index variable of the enclosing for loop over the same value, not assigned before the site (Gen/OpSites)";
+  mkacct "ach.Batch.upsertOffsets" "b.Control.TotalCreditEntryDollarAmount" "ops-model: upsert_offsets (TotalOps/TotalJson) dereferences this pointer; no panic on well-formed shapes (C06_ops_total_partial / C06_json_total_partial / C06_handlers_total_partial), panic reproduced on the others (correspondence c06ops)";
+  mkacct "ach.Batch.upsertOffsets" "b.Control.TotalDebitEntryDollarAmount" "ops-model: upsert_offsets (TotalOps/TotalJson) dereferences this pointer; no panic on well-formed shapes (C06_ops_total_partial / C06_json_total_partial / C06_handlers_total_partial), panic reproduced on the others (correspondence c06ops)";
+  mkacct "ach.Batch.upsertOffsets" "b.Control.EntryAddendaCount" "ops-model: upsert_offsets (TotalOps/TotalJson) dereferences this pointer; no panic on well-formed shapes (C06_ops_total_partial / C06_json_total_partial / C06_handlers_total_partial), panic reproduced on the others (correspondence c06ops)";
   mkacct "ach.Batch.upsertOffsets" "b.Entries[:i]" "loop index: i < len(b.Entries) in the for condition";
   mkacct "ach.Batch.upsertOffsets" "b.Entries[i+1:]" "loop index: i < len(b.Entries) in the for condition, so i+1 <= len(b.Entries)";
-  mkacct "ach.Batch.upsertOffsets" "b.Control.ServiceClassCode" "search-only: optional sub-record dereferenced without a syntactically dominating nil test (constructor / reader invariants are not modelled)";
-  mkacct "ach.Batch.upsertOffsets" "b.Control.EntryHash" "search-only: optional sub-record dereferenced without a syntactically dominating nil test (constructor / reader invariants are not modelled)";
-  mkacct "ach.createOffsetEntryDetail" "batch.offset.RoutingNumber" "search-only: optional sub-record dereferenced without a syntactically dominating nil test (constructor / reader invariants are not modelled)";
+  mkacct "ach.Batch.upsertOffsets" "b.Control.ServiceClassCode" "ops-model: upsert_offsets (TotalOps/TotalJson) dereferences this pointer; no panic on well-formed shapes (C06_ops_total_partial / C06_json_total_partial / C06_handlers_total_partial), panic reproduced on the others (correspondence c06ops)";
+  mkacct "ach.Batch.upsertOffsets" "b.Control.EntryHash" "ops-model: upsert_offsets (TotalOps/TotalJson) dereferences this pointer; no panic on well-formed shapes (C06_ops_total_partial / C06_json_total_partial / C06_handlers_total_partial), panic reproduced on the others (correspondence c06ops)";
+  mkacct "ach.createOffsetEntryDetail" "batch.offset.RoutingNumber" "ops-model: upsert_offsets (TotalOps/TotalJson) dereferences this pointer; no panic on well-formed shapes (C06_ops_total_partial / C06_json_total_partial / C06_handlers_total_partial), panic reproduced on the others (correspondence c06ops)";
   mkacct "ach.createOffsetEntryDetail" "batch.offset.RoutingNumber[:8]" "reviewed: only caller upsertOffsets returns early unless CheckRoutingNumber (rune count = 9) accepts the value";
   mkacct "ach.createOffsetEntryDetail" "batch.offset.RoutingNumber[8:9]" "reviewed: as above";
-  mkacct "ach.createOffsetEntryDetail" "batch.offset.AccountNumber" "search-only: optional sub-record dereferenced without a syntactically dominating nil test (constructor / reader invariants are not modelled)";
-  mkacct "ach.createOffsetEntryDetail" "batch.offset.Description" "search-only: optional sub-record dereferenced without a syntactically dominating nil test (constructor / reader invariants are not modelled)";
-  mkacct "ach.lastTraceNumber" "entries[len(entries)-1]" "search-only: last element after an emptiness check";
-  mkacct "ach.BatchCOR.Validate" "batch.Control.TotalCreditEntryDollarAmount" "search-only: optional sub-record dereferenced without a syntactically dominating nil test (constructor / reader invariants are not modelled)";
-  mkacct "ach.BatchCOR.Validate" "batch.Control.TotalDebitEntryDollarAmount" "search-only: optional sub-record dereferenced without a syntactically dominating nil test (constructor / reader invariants are not modelled)";
+  mkacct "ach.createOffsetEntryDetail" "batch.offset.AccountNumber" "ops-model: upsert_offsets (TotalOps/TotalJson) dereferences this pointer; no panic on well-formed shapes (C06_ops_total_partial / C06_json_total_partial / C06_handlers_total_partial), panic reproduced on the others (correspondence c06ops)";
+  mkacct "ach.createOffsetEntryDetail" "batch.offset.Description" "ops-model: upsert_offsets (TotalOps/TotalJson) dereferences this pointer; no panic on well-formed shapes (C06_ops_total_partial / C06_json_total_partial / C06_handlers_total_partial), panic reproduced on the others (correspondence c06ops)";
+  mkacct "ach.lastTraceNumber" "entries[len(entries)-1]" "last: x[len(x)-1] under a dominating test that x is not empty (Gen/OpSites)";
+  mkacct "ach.BatchCOR.Validate" "batch.Control.TotalCreditEntryDollarAmount" "ops-model: validate_std (TotalOps/TotalJson) dereferences this pointer; no panic on well-formed shapes (C06_ops_total_partial / C06_json_total_partial / C06_handlers_total_partial), panic reproduced on the others (correspondence c06ops)";
+  mkacct "ach.BatchCOR.Validate" "batch.Control.TotalDebitEntryDollarAmount" "ops-model: validate_std (TotalOps/TotalJson) dereferences this pointer; no panic on well-formed shapes (C06_ops_total_partial / C06_json_total_partial / C06_handlers_total_partial), panic reproduced on the others (correspondence c06ops)";
   mkacct "ach.ENRPaymentInformation.String" "nameParts[len(nameParts)-1:]" "reviewed: under len(nameParts) > 1";
   mkacct "ach.ENRPaymentInformation.String" "nameParts[:len(nameParts)-1]" "reviewed: under len(nameParts) > 1";
-  mkacct "ach.BatchMTE.Validate" "entry.Addenda02.TerminalState" "search-only: optional sub-record dereferenced without a syntactically dominating nil test (constructor / reader invariants are not modelled)";
-  mkacct "ach.BatchPOS.Validate" "entry.Addenda02.TerminalState" "search-only: optional sub-record dereferenced without a syntactically dominating nil test (constructor / reader invariants are not modelled)";
-  mkacct "ach.BatchSHR.Validate" "entry.Addenda02.TerminalState" "search-only: optional sub-record dereferenced without a syntactically dominating nil test (constructor / reader invariants are not modelled)";
-  mkacct "ach.populateMap" "out[i]" "search-only: index variable bounded by a loop condition or an earlier check, not resolved by the translator";
+  mkacct "ach.BatchMTE.Validate" "entry.Addenda02.TerminalState" "ops-model: validate_std (TotalOps/TotalJson) dereferences this pointer; no panic on well-formed shapes (C06_ops_total_partial / C06_json_total_partial / C06_handlers_total_partial), panic reproduced on the others (correspondence c06ops)";
+  mkacct "ach.BatchPOS.Validate" "entry.Addenda02.TerminalState" "ops-model: validate_std (TotalOps/TotalJson) dereferences this pointer; no panic on well-formed shapes (C06_ops_total_partial / C06_json_total_partial / C06_handlers_total_partial), panic reproduced on the others (correspondence c06ops)";
+  mkacct "ach.BatchSHR.Validate" "entry.Addenda02.TerminalState" "ops-model: validate_std (TotalOps/TotalJson) dereferences this pointer; no panic on well-formed shapes (C06_ops_total_partial / C06_json_total_partial / C06_handlers_total_partial), panic reproduced on the others (correspondence c06ops)";
+  mkacct "ach.populateMap" "out[i]" "map: the operand is a map (map[int]string); a map lookup never panics (Gen/OpSites)";
   mkacct "ach.converters.alphaField" "[]rune(s)[:max]" "reviewed: under ln > max where ln is the rune count";
-  mkacct "ach.converters.alphaField" "spaceZeros[m]" "search-only: map lookup (never panics), not told apart from an index syntactically";
+  mkacct "ach.converters.alphaField" "spaceZeros[m]" "map: the operand is a map (map[int]string); a map lookup never panics (Gen/OpSites)";
   mkacct "ach.converters.numericField" "s[l-max:]" "reviewed: under l > max where l = len(s)";
-  mkacct "ach.converters.numericField" "stringZeros[m]" "search-only: map lookup (never panics), not told apart from an index syntactically";
+  mkacct "ach.converters.numericField" "stringZeros[m]" "map: the operand is a map (map[int]string); a map lookup never panics (Gen/OpSites)";
   mkacct "ach.converters.stringField" "[]rune(s)[:max]" "reviewed: under ln > max where ln is the rune count";
-  mkacct "ach.converters.stringField" "stringZeros[m]" "search-only: map lookup (never panics), not told apart from an index syntactically";
+  mkacct "ach.converters.stringField" "stringZeros[m]" "map: the operand is a map (map[int]string); a map lookup never panics (Gen/OpSites)";
   mkacct "ach.EntryDetail.SetRDFI" "s[:8]" "model:set_rdfi_total - s := stringField(rdfi, 9) has at least 9 bytes";
   mkacct "ach.EntryDetail.SetRDFI" "s[8:9]" "model:set_rdfi_total - s := stringField(rdfi, 9) has at least 9 bytes";
   mkacct "ach.EntryDetail.POPCheckSerialNumberField" "ed.IdentificationNumber[0:9]" "UNGUARDED:pop_check_serial_iff - known finding panic:ach.(*EntryDetail).POPCheckSerialNumberField (no library operation calls it)";
@@ -97,120 +104,120 @@ Definition accounted : list acct := [
   mkacct "ach.EntryDetail.SHRDocumentReferenceNumberField" "ed.IdentificationNumber[4:15]" "UNGUARDED:shr_doc_ref_iff - known finding panic:ach.(*EntryDetail).SHRDocumentReferenceNumberField (no library operation calls it)";
   mkacct "ach.EntryDetail.CATXReservedField" "ed.IndividualName[20:22]" "UNGUARDED:catx_reserved_iff - known finding panic:ach.(*EntryDetail).CATXReservedField (no library operation calls it)";
   mkacct "ach.EntryDetail.CreditOrDebit" "tc[1:2]" "reviewed: tc = strconv.Itoa(code) with 10 <= code <= 99 has two digits";
-  mkacct "ach.FileFromJSONWith" "out.Control.BatchCount" "search-only: optional sub-record dereferenced without a syntactically dominating nil test (constructor / reader invariants are not modelled)";
-  mkacct "ach.FileFromJSONWith" "out.ADVControl.BatchCount" "search-only: optional sub-record dereferenced without a syntactically dominating nil test (constructor / reader invariants are not modelled)";
+  mkacct "ach.FileFromJSONWith" "out.Control.BatchCount" "value: the operand is a struct value (FileControl), selecting a field of it dereferences nothing (Gen/OpSites)";
+  mkacct "ach.FileFromJSONWith" "out.ADVControl.BatchCount" "value: the operand is a struct value (ADVFileControl), selecting a field of it dereferences nothing (Gen/OpSites)";
   mkacct "ach.File.setBatchesFromJSON" "f.Batches[:i]" "loop index: i ranges over the sliced value (remove element i)";
   mkacct "ach.File.setBatchesFromJSON" "f.Batches[i+1:]" "loop index: i ranges over the sliced value (remove element i)";
-  mkacct "ach.File.setBatchesFromJSON" "batch.GetHeader().StandardEntryClassCode" "search-only: optional sub-record dereferenced without a syntactically dominating nil test (constructor / reader invariants are not modelled)";
-  mkacct "ach.File.Create" "f.Batches[i].GetHeader().BatchNumber" "search-only: optional sub-record dereferenced without a syntactically dominating nil test (constructor / reader invariants are not modelled)";
-  mkacct "ach.File.Create" "f.Batches[i].GetControl().BatchNumber" "search-only: optional sub-record dereferenced without a syntactically dominating nil test (constructor / reader invariants are not modelled)";
-  mkacct "ach.File.Create" "batch.GetControl().EntryAddendaCount" "search-only: optional sub-record dereferenced without a syntactically dominating nil test (constructor / reader invariants are not modelled)";
-  mkacct "ach.File.Create" "batch.GetControl().EntryHash" "search-only: optional sub-record dereferenced without a syntactically dominating nil test (constructor / reader invariants are not modelled)";
-  mkacct "ach.File.Create" "batch.GetControl().TotalDebitEntryDollarAmount" "search-only: optional sub-record dereferenced without a syntactically dominating nil test (constructor / reader invariants are not modelled)";
-  mkacct "ach.File.Create" "batch.GetControl().TotalCreditEntryDollarAmount" "search-only: optional sub-record dereferenced without a syntactically dominating nil test (constructor / reader invariants are not modelled)";
-  mkacct "ach.File.Create" "f.IATBatches[i].GetHeader().BatchNumber" "search-only: optional sub-record dereferenced without a syntactically dominating nil test (constructor / reader invariants are not modelled)";
-  mkacct "ach.File.Create" "f.IATBatches[i].GetControl().BatchNumber" "search-only: optional sub-record dereferenced without a syntactically dominating nil test (constructor / reader invariants are not modelled)";
-  mkacct "ach.File.Create" "iatBatch.GetControl().EntryAddendaCount" "search-only: optional sub-record dereferenced without a syntactically dominating nil test (constructor / reader invariants are not modelled)";
-  mkacct "ach.File.Create" "iatBatch.GetControl().EntryHash" "search-only: optional sub-record dereferenced without a syntactically dominating nil test (constructor / reader invariants are not modelled)";
-  mkacct "ach.File.Create" "iatBatch.GetControl().TotalDebitEntryDollarAmount" "search-only: optional sub-record dereferenced without a syntactically dominating nil test (constructor / reader invariants are not modelled)";
-  mkacct "ach.File.Create" "iatBatch.GetControl().TotalCreditEntryDollarAmount" "search-only: optional sub-record dereferenced without a syntactically dominating nil test (constructor / reader invariants are not modelled)";
-  mkacct "ach.File.RemoveBatch" "f.NotificationOfChange[i]" "search-only: index variable bounded by a loop condition or an earlier check, not resolved by the translator";
+  mkacct "ach.File.setBatchesFromJSON" "batch.GetHeader().StandardEntryClassCode" "ops-model: json_batches (TotalOps/TotalJson) dereferences this pointer; no panic on well-formed shapes (C06_ops_total_partial / C06_json_total_partial / C06_handlers_total_partial), panic reproduced on the others (correspondence c06ops)";
+  mkacct "ach.File.Create" "f.Batches[i].GetHeader().BatchNumber" "ops-model: file_create (TotalOps/TotalJson) dereferences this pointer; no panic on well-formed shapes (C06_ops_total_partial / C06_json_total_partial / C06_handlers_total_partial), panic reproduced on the others (correspondence c06ops)";
+  mkacct "ach.File.Create" "f.Batches[i].GetControl().BatchNumber" "ops-model: file_create (TotalOps/TotalJson) dereferences this pointer; no panic on well-formed shapes (C06_ops_total_partial / C06_json_total_partial / C06_handlers_total_partial), panic reproduced on the others (correspondence c06ops)";
+  mkacct "ach.File.Create" "batch.GetControl().EntryAddendaCount" "ops-model: file_create (TotalOps/TotalJson) dereferences this pointer; no panic on well-formed shapes (C06_ops_total_partial / C06_json_total_partial / C06_handlers_total_partial), panic reproduced on the others (correspondence c06ops)";
+  mkacct "ach.File.Create" "batch.GetControl().EntryHash" "ops-model: file_create (TotalOps/TotalJson) dereferences this pointer; no panic on well-formed shapes (C06_ops_total_partial / C06_json_total_partial / C06_handlers_total_partial), panic reproduced on the others (correspondence c06ops)";
+  mkacct "ach.File.Create" "batch.GetControl().TotalDebitEntryDollarAmount" "ops-model: file_create (TotalOps/TotalJson) dereferences this pointer; no panic on well-formed shapes (C06_ops_total_partial / C06_json_total_partial / C06_handlers_total_partial), panic reproduced on the others (correspondence c06ops)";
+  mkacct "ach.File.Create" "batch.GetControl().TotalCreditEntryDollarAmount" "ops-model: file_create (TotalOps/TotalJson) dereferences this pointer; no panic on well-formed shapes (C06_ops_total_partial / C06_json_total_partial / C06_handlers_total_partial), panic reproduced on the others (correspondence c06ops)";
+  mkacct "ach.File.Create" "f.IATBatches[i].GetHeader().BatchNumber" "ops-model: file_create (TotalOps/TotalJson) dereferences this pointer; no panic on well-formed shapes (C06_ops_total_partial / C06_json_total_partial / C06_handlers_total_partial), panic reproduced on the others (correspondence c06ops)";
+  mkacct "ach.File.Create" "f.IATBatches[i].GetControl().BatchNumber" "ops-model: file_create (TotalOps/TotalJson) dereferences this pointer; no panic on well-formed shapes (C06_ops_total_partial / C06_json_total_partial / C06_handlers_total_partial), panic reproduced on the others (correspondence c06ops)";
+  mkacct "ach.File.Create" "iatBatch.GetControl().EntryAddendaCount" "ops-model: file_create (TotalOps/TotalJson) dereferences this pointer; no panic on well-formed shapes (C06_ops_total_partial / C06_json_total_partial / C06_handlers_total_partial), panic reproduced on the others (correspondence c06ops)";
+  mkacct "ach.File.Create" "iatBatch.GetControl().EntryHash" "ops-model: file_create (TotalOps/TotalJson) dereferences this pointer; no panic on well-formed shapes (C06_ops_total_partial / C06_json_total_partial / C06_handlers_total_partial), panic reproduced on the others (correspondence c06ops)";
+  mkacct "ach.File.Create" "iatBatch.GetControl().TotalDebitEntryDollarAmount" "ops-model: file_create (TotalOps/TotalJson) dereferences this pointer; no panic on well-formed shapes (C06_ops_total_partial / C06_json_total_partial / C06_handlers_total_partial), panic reproduced on the others (correspondence c06ops)";
+  mkacct "ach.File.Create" "iatBatch.GetControl().TotalCreditEntryDollarAmount" "ops-model: file_create (TotalOps/TotalJson) dereferences this pointer; no panic on well-formed shapes (C06_ops_total_partial / C06_json_total_partial / C06_handlers_total_partial), panic reproduced on the others (correspondence c06ops)";
+  mkacct "ach.File.RemoveBatch" "f.NotificationOfChange[i]" "loop-bound: index variable of the enclosing for loop over the same value, not assigned before the site (Gen/OpSites)";
   mkacct "ach.File.RemoveBatch" "f.NotificationOfChange[:i]" "loop index: i ranges over the sliced value (remove element i)";
   mkacct "ach.File.RemoveBatch" "f.NotificationOfChange[i+1:]" "loop index: i ranges over the sliced value (remove element i)";
-  mkacct "ach.File.RemoveBatch" "f.ReturnEntries[i]" "search-only: index variable bounded by a loop condition or an earlier check, not resolved by the translator";
+  mkacct "ach.File.RemoveBatch" "f.ReturnEntries[i]" "loop-bound: index variable of the enclosing for loop over the same value, not assigned before the site (Gen/OpSites)";
   mkacct "ach.File.RemoveBatch" "f.ReturnEntries[:i]" "loop index: i ranges over the sliced value (remove element i)";
   mkacct "ach.File.RemoveBatch" "f.ReturnEntries[i+1:]" "loop index: i ranges over the sliced value (remove element i)";
-  mkacct "ach.File.RemoveBatch" "f.Batches[i]" "search-only: index variable bounded by a loop condition or an earlier check, not resolved by the translator";
+  mkacct "ach.File.RemoveBatch" "f.Batches[i]" "loop-bound: index variable of the enclosing for loop over the same value, not assigned before the site (Gen/OpSites)";
   mkacct "ach.File.RemoveBatch" "f.Batches[:i]" "loop index: i ranges over the sliced value (remove element i)";
   mkacct "ach.File.RemoveBatch" "f.Batches[i+1:]" "loop index: i ranges over the sliced value (remove element i)";
-  mkacct "ach.File.ValidateWith" "f.Control.BatchCount" "search-only: optional sub-record dereferenced without a syntactically dominating nil test (constructor / reader invariants are not modelled)";
-  mkacct "ach.File.ValidateWith" "f.Control.Validate" "search-only: optional sub-record dereferenced without a syntactically dominating nil test (constructor / reader invariants are not modelled)";
-  mkacct "ach.File.ValidateWith" "f.ADVControl.BatchCount" "search-only: optional sub-record dereferenced without a syntactically dominating nil test (constructor / reader invariants are not modelled)";
-  mkacct "ach.File.ValidateWith" "f.ADVControl.Validate" "search-only: optional sub-record dereferenced without a syntactically dominating nil test (constructor / reader invariants are not modelled)";
-  mkacct "ach.File.isEntryAddendaCount" "batch.GetControl().EntryAddendaCount" "search-only: optional sub-record dereferenced without a syntactically dominating nil test (constructor / reader invariants are not modelled)";
-  mkacct "ach.File.isEntryAddendaCount" "iatBatch.GetControl().EntryAddendaCount" "search-only: optional sub-record dereferenced without a syntactically dominating nil test (constructor / reader invariants are not modelled)";
-  mkacct "ach.File.isEntryAddendaCount" "f.Control.EntryAddendaCount" "search-only: optional sub-record dereferenced without a syntactically dominating nil test (constructor / reader invariants are not modelled)";
-  mkacct "ach.File.isEntryAddendaCount" "batch.GetADVControl().EntryAddendaCount" "search-only: optional sub-record dereferenced without a syntactically dominating nil test (constructor / reader invariants are not modelled)";
-  mkacct "ach.File.isEntryAddendaCount" "f.ADVControl.EntryAddendaCount" "search-only: optional sub-record dereferenced without a syntactically dominating nil test (constructor / reader invariants are not modelled)";
-  mkacct "ach.File.isFileAmount" "batch.GetControl().TotalDebitEntryDollarAmount" "search-only: optional sub-record dereferenced without a syntactically dominating nil test (constructor / reader invariants are not modelled)";
-  mkacct "ach.File.isFileAmount" "batch.GetControl().TotalCreditEntryDollarAmount" "search-only: optional sub-record dereferenced without a syntactically dominating nil test (constructor / reader invariants are not modelled)";
-  mkacct "ach.File.isFileAmount" "iatBatch.GetControl().TotalDebitEntryDollarAmount" "search-only: optional sub-record dereferenced without a syntactically dominating nil test (constructor / reader invariants are not modelled)";
-  mkacct "ach.File.isFileAmount" "iatBatch.GetControl().TotalCreditEntryDollarAmount" "search-only: optional sub-record dereferenced without a syntactically dominating nil test (constructor / reader invariants are not modelled)";
-  mkacct "ach.File.isFileAmount" "f.Control.TotalDebitEntryDollarAmountInFile" "search-only: optional sub-record dereferenced without a syntactically dominating nil test (constructor / reader invariants are not modelled)";
-  mkacct "ach.File.isFileAmount" "f.Control.TotalCreditEntryDollarAmountInFile" "search-only: optional sub-record dereferenced without a syntactically dominating nil test (constructor / reader invariants are not modelled)";
-  mkacct "ach.File.isFileAmount" "batch.GetADVControl().TotalDebitEntryDollarAmount" "search-only: optional sub-record dereferenced without a syntactically dominating nil test (constructor / reader invariants are not modelled)";
-  mkacct "ach.File.isFileAmount" "batch.GetADVControl().TotalCreditEntryDollarAmount" "search-only: optional sub-record dereferenced without a syntactically dominating nil test (constructor / reader invariants are not modelled)";
-  mkacct "ach.File.isFileAmount" "f.ADVControl.TotalDebitEntryDollarAmountInFile" "search-only: optional sub-record dereferenced without a syntactically dominating nil test (constructor / reader invariants are not modelled)";
-  mkacct "ach.File.isFileAmount" "f.ADVControl.TotalCreditEntryDollarAmountInFile" "search-only: optional sub-record dereferenced without a syntactically dominating nil test (constructor / reader invariants are not modelled)";
-  mkacct "ach.File.isEntryHash" "f.Control.EntryHash" "search-only: optional sub-record dereferenced without a syntactically dominating nil test (constructor / reader invariants are not modelled)";
-  mkacct "ach.File.isEntryHash" "f.ADVControl.EntryHash" "search-only: optional sub-record dereferenced without a syntactically dominating nil test (constructor / reader invariants are not modelled)";
-  mkacct "ach.File.calculateEntryHash" "batch.GetControl().EntryHash" "search-only: optional sub-record dereferenced without a syntactically dominating nil test (constructor / reader invariants are not modelled)";
-  mkacct "ach.File.calculateEntryHash" "iatBatch.GetControl().EntryHash" "search-only: optional sub-record dereferenced without a syntactically dominating nil test (constructor / reader invariants are not modelled)";
-  mkacct "ach.File.calculateEntryHash" "batch.GetADVControl().EntryHash" "search-only: optional sub-record dereferenced without a syntactically dominating nil test (constructor / reader invariants are not modelled)";
-  mkacct "ach.File.calculateEntryHash" "f.Control.leastSignificantDigits" "search-only: optional sub-record dereferenced without a syntactically dominating nil test (constructor / reader invariants are not modelled)";
-  mkacct "ach.File.IsADV" "f.Batches[i].GetHeader().StandardEntryClassCode" "search-only: optional sub-record dereferenced without a syntactically dominating nil test (constructor / reader invariants are not modelled)";
-  mkacct "ach.File.createFileADV" "batch.GetHeader().StandardEntryClassCode" "search-only: optional sub-record dereferenced without a syntactically dominating nil test (constructor / reader invariants are not modelled)";
-  mkacct "ach.File.createFileADV" "f.Batches[i].GetHeader().BatchNumber" "search-only: optional sub-record dereferenced without a syntactically dominating nil test (constructor / reader invariants are not modelled)";
-  mkacct "ach.File.createFileADV" "f.Batches[i].GetADVControl().BatchNumber" "search-only: optional sub-record dereferenced without a syntactically dominating nil test (constructor / reader invariants are not modelled)";
-  mkacct "ach.File.createFileADV" "batch.GetADVControl().EntryAddendaCount" "search-only: optional sub-record dereferenced without a syntactically dominating nil test (constructor / reader invariants are not modelled)";
-  mkacct "ach.File.createFileADV" "batch.GetADVControl().EntryHash" "search-only: optional sub-record dereferenced without a syntactically dominating nil test (constructor / reader invariants are not modelled)";
-  mkacct "ach.File.createFileADV" "batch.GetADVControl().TotalDebitEntryDollarAmount" "search-only: optional sub-record dereferenced without a syntactically dominating nil test (constructor / reader invariants are not modelled)";
-  mkacct "ach.File.createFileADV" "batch.GetADVControl().TotalCreditEntryDollarAmount" "search-only: optional sub-record dereferenced without a syntactically dominating nil test (constructor / reader invariants are not modelled)";
-  mkacct "ach.File.isSequenceAscending" "batch.GetHeader().BatchNumber" "search-only: optional sub-record dereferenced without a syntactically dominating nil test (constructor / reader invariants are not modelled)";
-  mkacct "ach.Flatten" "originalBatches[i]" "search-only: index variable bounded by a loop condition or an earlier check, not resolved by the translator";
-  mkacct "ach.Flatten" "originalBatches[j]" "search-only: index variable bounded by a loop condition or an earlier check, not resolved by the translator";
-  mkacct "ach.Flatten" "newBatchesByHeader[batch.GetHeaderSignature()]" "search-only: map lookup (never panics), not told apart from an index syntactically";
-  mkacct "ach.Flatten" "allBatches[i]" "search-only: index variable bounded by a loop condition or an earlier check, not resolved by the translator";
-  mkacct "ach.Flatten" "allBatches[j]" "search-only: index variable bounded by a loop condition or an earlier check, not resolved by the translator";
-  mkacct "ach.Flatten" "originalFile.Control.EntryAddendaCount" "search-only: optional sub-record dereferenced without a syntactically dominating nil test (constructor / reader invariants are not modelled)";
-  mkacct "ach.Flatten" "newFile.Control.EntryAddendaCount" "search-only: optional sub-record dereferenced without a syntactically dominating nil test (constructor / reader invariants are not modelled)";
-  mkacct "ach.Flatten" "originalFile.Control.TotalDebitEntryDollarAmountInFile" "search-only: optional sub-record dereferenced without a syntactically dominating nil test (constructor / reader invariants are not modelled)";
-  mkacct "ach.Flatten" "newFile.Control.TotalDebitEntryDollarAmountInFile" "search-only: optional sub-record dereferenced without a syntactically dominating nil test (constructor / reader invariants are not modelled)";
-  mkacct "ach.Flatten" "originalFile.Control.TotalCreditEntryDollarAmountInFile" "search-only: optional sub-record dereferenced without a syntactically dominating nil test (constructor / reader invariants are not modelled)";
-  mkacct "ach.Flatten" "newFile.Control.TotalCreditEntryDollarAmountInFile" "search-only: optional sub-record dereferenced without a syntactically dominating nil test (constructor / reader invariants are not modelled)";
-  mkacct "ach.canMerge" "traceNumbers[traceNumber]" "search-only: map lookup (never panics), not told apart from an index syntactically";
-  mkacct "ach.mergeableBatcher.GetHeaderSignature" "b.batcher.GetHeader().String" "search-only: optional sub-record dereferenced without a syntactically dominating nil test (constructor / reader invariants are not modelled)";
-  mkacct "ach.mergeableBatcher.GetBatchNumber" "b.batcher.GetHeader().BatchNumber" "search-only: optional sub-record dereferenced without a syntactically dominating nil test (constructor / reader invariants are not modelled)";
-  mkacct "ach.mergeableBatcher.GetTraceNumbers" "b.traceNumbers[entry.TraceNumber]" "search-only: map lookup (never panics), not told apart from an index syntactically";
-  mkacct "ach.mergeableBatcher.Consume" "batcherToConsume.GetHeader().BatchNumber" "search-only: optional sub-record dereferenced without a syntactically dominating nil test (constructor / reader invariants are not modelled)";
-  mkacct "ach.mergeableBatcher.Consume" "m.batcher.GetHeader().BatchNumber" "search-only: optional sub-record dereferenced without a syntactically dominating nil test (constructor / reader invariants are not modelled)";
-  mkacct "ach.mergeableBatcher.AddToFile" "m.batcher.GetEntries()[i]" "search-only: index variable bounded by a loop condition or an earlier check, not resolved by the translator";
-  mkacct "ach.mergeableBatcher.AddToFile" "m.batcher.GetEntries()[j]" "search-only: index variable bounded by a loop condition or an earlier check, not resolved by the translator";
-  mkacct "ach.mergeableBatcher.AddToFile" "m.batcher.GetHeader().BatchNumber" "search-only: optional sub-record dereferenced without a syntactically dominating nil test (constructor / reader invariants are not modelled)";
-  mkacct "ach.mergeableIATBatch.GetTraceNumbers" "b.traceNumbers[entry.TraceNumber]" "search-only: map lookup (never panics), not told apart from an index syntactically";
-  mkacct "ach.mergeableIATBatch.AddToFile" "m.iatBatch.Entries[i]" "search-only: index variable bounded by a loop condition or an earlier check, not resolved by the translator";
-  mkacct "ach.mergeableIATBatch.AddToFile" "m.iatBatch.Entries[j]" "search-only: index variable bounded by a loop condition or an earlier check, not resolved by the translator";
-  mkacct "ach.IATBatch.verify" "iatBatch.Control.ServiceClassCode" "search-only: optional sub-record dereferenced without a syntactically dominating nil test (constructor / reader invariants are not modelled)";
-  mkacct "ach.IATBatch.verify" "iatBatch.Control.ODFIIdentification" "search-only: optional sub-record dereferenced without a syntactically dominating nil test (constructor / reader invariants are not modelled)";
-  mkacct "ach.IATBatch.verify" "iatBatch.Control.BatchNumber" "search-only: optional sub-record dereferenced without a syntactically dominating nil test (constructor / reader invariants are not modelled)";
-  mkacct "ach.IATBatch.verify" "iatBatch.Control.isAlphanumeric" "search-only: optional sub-record dereferenced without a syntactically dominating nil test (constructor / reader invariants are not modelled)";
-  mkacct "ach.IATBatch.verify" "iatBatch.Control.CompanyIdentification" "search-only: optional sub-record dereferenced without a syntactically dominating nil test (constructor / reader invariants are not modelled)";
-  mkacct "ach.IATBatch.isFieldInclusion" "entry.Addenda10.Validate" "search-only: optional sub-record dereferenced without a syntactically dominating nil test (constructor / reader invariants are not modelled)";
-  mkacct "ach.IATBatch.isFieldInclusion" "entry.Addenda11.Validate" "search-only: optional sub-record dereferenced without a syntactically dominating nil test (constructor / reader invariants are not modelled)";
-  mkacct "ach.IATBatch.isFieldInclusion" "entry.Addenda12.Validate" "search-only: optional sub-record dereferenced without a syntactically dominating nil test (constructor / reader invariants are not modelled)";
-  mkacct "ach.IATBatch.isFieldInclusion" "entry.Addenda13.Validate" "search-only: optional sub-record dereferenced without a syntactically dominating nil test (constructor / reader invariants are not modelled)";
-  mkacct "ach.IATBatch.isFieldInclusion" "entry.Addenda14.Validate" "search-only: optional sub-record dereferenced without a syntactically dominating nil test (constructor / reader invariants are not modelled)";
-  mkacct "ach.IATBatch.isFieldInclusion" "entry.Addenda15.Validate" "search-only: optional sub-record dereferenced without a syntactically dominating nil test (constructor / reader invariants are not modelled)";
-  mkacct "ach.IATBatch.isFieldInclusion" "entry.Addenda16.Validate" "search-only: optional sub-record dereferenced without a syntactically dominating nil test (constructor / reader invariants are not modelled)";
-  mkacct "ach.IATBatch.isFieldInclusion" "iatBatch.Control.Validate" "search-only: optional sub-record dereferenced without a syntactically dominating nil test (constructor / reader invariants are not modelled)";
-  mkacct "ach.IATBatch.isBatchEntryCount" "iatBatch.Control.EntryAddendaCount" "search-only: optional sub-record dereferenced without a syntactically dominating nil test (constructor / reader invariants are not modelled)";
-  mkacct "ach.IATBatch.isBatchAmount" "iatBatch.Control.TotalDebitEntryDollarAmount" "search-only: optional sub-record dereferenced without a syntactically dominating nil test (constructor / reader invariants are not modelled)";
-  mkacct "ach.IATBatch.isBatchAmount" "iatBatch.Control.TotalCreditEntryDollarAmount" "search-only: optional sub-record dereferenced without a syntactically dominating nil test (constructor / reader invariants are not modelled)";
-  mkacct "ach.IATBatch.isEntryHash" "iatBatch.Control.EntryHash" "search-only: optional sub-record dereferenced without a syntactically dominating nil test (constructor / reader invariants are not modelled)";
-  mkacct "ach.IATBatch.isAddendaSequence" "entry.Addenda10.EntryDetailSequenceNumberField" "search-only: optional sub-record dereferenced without a syntactically dominating nil test (constructor / reader invariants are not modelled)";
-  mkacct "ach.IATBatch.isAddendaSequence" "entry.Addenda11.EntryDetailSequenceNumberField" "search-only: optional sub-record dereferenced without a syntactically dominating nil test (constructor / reader invariants are not modelled)";
-  mkacct "ach.IATBatch.isAddendaSequence" "entry.Addenda12.EntryDetailSequenceNumberField" "search-only: optional sub-record dereferenced without a syntactically dominating nil test (constructor / reader invariants are not modelled)";
-  mkacct "ach.IATBatch.isAddendaSequence" "entry.Addenda13.EntryDetailSequenceNumberField" "search-only: optional sub-record dereferenced without a syntactically dominating nil test (constructor / reader invariants are not modelled)";
-  mkacct "ach.IATBatch.isAddendaSequence" "entry.Addenda14.EntryDetailSequenceNumberField" "search-only: optional sub-record dereferenced without a syntactically dominating nil test (constructor / reader invariants are not modelled)";
-  mkacct "ach.IATBatch.isAddendaSequence" "entry.Addenda15.EntryDetailSequenceNumberField" "search-only: optional sub-record dereferenced without a syntactically dominating nil test (constructor / reader invariants are not modelled)";
-  mkacct "ach.IATBatch.isAddendaSequence" "entry.Addenda16.EntryDetailSequenceNumberField" "search-only: optional sub-record dereferenced without a syntactically dominating nil test (constructor / reader invariants are not modelled)";
+  mkacct "ach.File.ValidateWith" "f.Control.BatchCount" "value: the operand is a struct value (FileControl), selecting a field of it dereferences nothing (Gen/OpSites)";
+  mkacct "ach.File.ValidateWith" "f.Control.Validate" "value: the operand is a struct value (FileControl), selecting a field of it dereferences nothing (Gen/OpSites)";
+  mkacct "ach.File.ValidateWith" "f.ADVControl.BatchCount" "value: the operand is a struct value (ADVFileControl), selecting a field of it dereferences nothing (Gen/OpSites)";
+  mkacct "ach.File.ValidateWith" "f.ADVControl.Validate" "value: the operand is a struct value (ADVFileControl), selecting a field of it dereferences nothing (Gen/OpSites)";
+  mkacct "ach.File.isEntryAddendaCount" "batch.GetControl().EntryAddendaCount" "ops-model: is_entry_addenda_count (TotalOps/TotalJson) dereferences this pointer; no panic on well-formed shapes (C06_ops_total_partial / C06_json_total_partial / C06_handlers_total_partial), panic reproduced on the others (correspondence c06ops)";
+  mkacct "ach.File.isEntryAddendaCount" "iatBatch.GetControl().EntryAddendaCount" "ops-model: is_entry_addenda_count (TotalOps/TotalJson) dereferences this pointer; no panic on well-formed shapes (C06_ops_total_partial / C06_json_total_partial / C06_handlers_total_partial), panic reproduced on the others (correspondence c06ops)";
+  mkacct "ach.File.isEntryAddendaCount" "f.Control.EntryAddendaCount" "value: the operand is a struct value (FileControl), selecting a field of it dereferences nothing (Gen/OpSites)";
+  mkacct "ach.File.isEntryAddendaCount" "batch.GetADVControl().EntryAddendaCount" "ops-model: is_entry_addenda_count (TotalOps/TotalJson) dereferences this pointer; no panic on well-formed shapes (C06_ops_total_partial / C06_json_total_partial / C06_handlers_total_partial), panic reproduced on the others (correspondence c06ops)";
+  mkacct "ach.File.isEntryAddendaCount" "f.ADVControl.EntryAddendaCount" "value: the operand is a struct value (ADVFileControl), selecting a field of it dereferences nothing (Gen/OpSites)";
+  mkacct "ach.File.isFileAmount" "batch.GetControl().TotalDebitEntryDollarAmount" "ops-model: is_file_amount (TotalOps/TotalJson) dereferences this pointer; no panic on well-formed shapes (C06_ops_total_partial / C06_json_total_partial / C06_handlers_total_partial), panic reproduced on the others (correspondence c06ops)";
+  mkacct "ach.File.isFileAmount" "batch.GetControl().TotalCreditEntryDollarAmount" "ops-model: is_file_amount (TotalOps/TotalJson) dereferences this pointer; no panic on well-formed shapes (C06_ops_total_partial / C06_json_total_partial / C06_handlers_total_partial), panic reproduced on the others (correspondence c06ops)";
+  mkacct "ach.File.isFileAmount" "iatBatch.GetControl().TotalDebitEntryDollarAmount" "ops-model: is_file_amount (TotalOps/TotalJson) dereferences this pointer; no panic on well-formed shapes (C06_ops_total_partial / C06_json_total_partial / C06_handlers_total_partial), panic reproduced on the others (correspondence c06ops)";
+  mkacct "ach.File.isFileAmount" "iatBatch.GetControl().TotalCreditEntryDollarAmount" "ops-model: is_file_amount (TotalOps/TotalJson) dereferences this pointer; no panic on well-formed shapes (C06_ops_total_partial / C06_json_total_partial / C06_handlers_total_partial), panic reproduced on the others (correspondence c06ops)";
+  mkacct "ach.File.isFileAmount" "f.Control.TotalDebitEntryDollarAmountInFile" "value: the operand is a struct value (FileControl), selecting a field of it dereferences nothing (Gen/OpSites)";
+  mkacct "ach.File.isFileAmount" "f.Control.TotalCreditEntryDollarAmountInFile" "value: the operand is a struct value (FileControl), selecting a field of it dereferences nothing (Gen/OpSites)";
+  mkacct "ach.File.isFileAmount" "batch.GetADVControl().TotalDebitEntryDollarAmount" "ops-model: is_file_amount (TotalOps/TotalJson) dereferences this pointer; no panic on well-formed shapes (C06_ops_total_partial / C06_json_total_partial / C06_handlers_total_partial), panic reproduced on the others (correspondence c06ops)";
+  mkacct "ach.File.isFileAmount" "batch.GetADVControl().TotalCreditEntryDollarAmount" "ops-model: is_file_amount (TotalOps/TotalJson) dereferences this pointer; no panic on well-formed shapes (C06_ops_total_partial / C06_json_total_partial / C06_handlers_total_partial), panic reproduced on the others (correspondence c06ops)";
+  mkacct "ach.File.isFileAmount" "f.ADVControl.TotalDebitEntryDollarAmountInFile" "value: the operand is a struct value (ADVFileControl), selecting a field of it dereferences nothing (Gen/OpSites)";
+  mkacct "ach.File.isFileAmount" "f.ADVControl.TotalCreditEntryDollarAmountInFile" "value: the operand is a struct value (ADVFileControl), selecting a field of it dereferences nothing (Gen/OpSites)";
+  mkacct "ach.File.isEntryHash" "f.Control.EntryHash" "value: the operand is a struct value (FileControl), selecting a field of it dereferences nothing (Gen/OpSites)";
+  mkacct "ach.File.isEntryHash" "f.ADVControl.EntryHash" "value: the operand is a struct value (ADVFileControl), selecting a field of it dereferences nothing (Gen/OpSites)";
+  mkacct "ach.File.calculateEntryHash" "batch.GetControl().EntryHash" "ops-model: file_entry_hash (TotalOps/TotalJson) dereferences this pointer; no panic on well-formed shapes (C06_ops_total_partial / C06_json_total_partial / C06_handlers_total_partial), panic reproduced on the others (correspondence c06ops)";
+  mkacct "ach.File.calculateEntryHash" "iatBatch.GetControl().EntryHash" "ops-model: file_entry_hash (TotalOps/TotalJson) dereferences this pointer; no panic on well-formed shapes (C06_ops_total_partial / C06_json_total_partial / C06_handlers_total_partial), panic reproduced on the others (correspondence c06ops)";
+  mkacct "ach.File.calculateEntryHash" "batch.GetADVControl().EntryHash" "ops-model: file_entry_hash (TotalOps/TotalJson) dereferences this pointer; no panic on well-formed shapes (C06_ops_total_partial / C06_json_total_partial / C06_handlers_total_partial), panic reproduced on the others (correspondence c06ops)";
+  mkacct "ach.File.calculateEntryHash" "f.Control.leastSignificantDigits" "value: the operand is a struct value (FileControl), selecting a field of it dereferences nothing (Gen/OpSites)";
+  mkacct "ach.File.IsADV" "f.Batches[i].GetHeader().StandardEntryClassCode" "ops-model: file_is_adv (TotalOps/TotalJson) dereferences this pointer; no panic on well-formed shapes (C06_ops_total_partial / C06_json_total_partial / C06_handlers_total_partial), panic reproduced on the others (correspondence c06ops)";
+  mkacct "ach.File.createFileADV" "batch.GetHeader().StandardEntryClassCode" "ops-model: create_file_adv (TotalOps/TotalJson) dereferences this pointer; no panic on well-formed shapes (C06_ops_total_partial / C06_json_total_partial / C06_handlers_total_partial), panic reproduced on the others (correspondence c06ops)";
+  mkacct "ach.File.createFileADV" "f.Batches[i].GetHeader().BatchNumber" "ops-model: create_file_adv (TotalOps/TotalJson) dereferences this pointer; no panic on well-formed shapes (C06_ops_total_partial / C06_json_total_partial / C06_handlers_total_partial), panic reproduced on the others (correspondence c06ops)";
+  mkacct "ach.File.createFileADV" "f.Batches[i].GetADVControl().BatchNumber" "ops-model: create_file_adv (TotalOps/TotalJson) dereferences this pointer; no panic on well-formed shapes (C06_ops_total_partial / C06_json_total_partial / C06_handlers_total_partial), panic reproduced on the others (correspondence c06ops)";
+  mkacct "ach.File.createFileADV" "batch.GetADVControl().EntryAddendaCount" "ops-model: create_file_adv (TotalOps/TotalJson) dereferences this pointer; no panic on well-formed shapes (C06_ops_total_partial / C06_json_total_partial / C06_handlers_total_partial), panic reproduced on the others (correspondence c06ops)";
+  mkacct "ach.File.createFileADV" "batch.GetADVControl().EntryHash" "ops-model: create_file_adv (TotalOps/TotalJson) dereferences this pointer; no panic on well-formed shapes (C06_ops_total_partial / C06_json_total_partial / C06_handlers_total_partial), panic reproduced on the others (correspondence c06ops)";
+  mkacct "ach.File.createFileADV" "batch.GetADVControl().TotalDebitEntryDollarAmount" "ops-model: create_file_adv (TotalOps/TotalJson) dereferences this pointer; no panic on well-formed shapes (C06_ops_total_partial / C06_json_total_partial / C06_handlers_total_partial), panic reproduced on the others (correspondence c06ops)";
+  mkacct "ach.File.createFileADV" "batch.GetADVControl().TotalCreditEntryDollarAmount" "ops-model: create_file_adv (TotalOps/TotalJson) dereferences this pointer; no panic on well-formed shapes (C06_ops_total_partial / C06_json_total_partial / C06_handlers_total_partial), panic reproduced on the others (correspondence c06ops)";
+  mkacct "ach.File.isSequenceAscending" "batch.GetHeader().BatchNumber" "ops-model: file_sequence_ascending (TotalOps/TotalJson) dereferences this pointer; no panic on well-formed shapes (C06_ops_total_partial / C06_json_total_partial / C06_handlers_total_partial), panic reproduced on the others (correspondence c06ops)";
+  mkacct "ach.Flatten" "originalBatches[i]" "sort-less: index parameters of the less function of sort.Slice over the same value (contract of package sort); the other occurrence is the key of `for i := range` over the same value";
+  mkacct "ach.Flatten" "originalBatches[j]" "sort-less: index parameters of the less function of sort.Slice over the same value (contract of package sort)";
+  mkacct "ach.Flatten" "newBatchesByHeader[batch.GetHeaderSignature()]" "map: the operand is a map (map[string][]mergeable); a map lookup never panics (Gen/OpSites)";
+  mkacct "ach.Flatten" "allBatches[i]" "sort-less: index parameters of the less function of sort.Slice over the same value (contract of package sort); the other occurrence is the key of `for i := range` over the same value";
+  mkacct "ach.Flatten" "allBatches[j]" "sort-less: index parameters of the less function of sort.Slice over the same value (contract of package sort)";
+  mkacct "ach.Flatten" "originalFile.Control.EntryAddendaCount" "value: the operand is a struct value (FileControl), selecting a field of it dereferences nothing (Gen/OpSites)";
+  mkacct "ach.Flatten" "newFile.Control.EntryAddendaCount" "value: the operand is a struct value (FileControl), selecting a field of it dereferences nothing (Gen/OpSites)";
+  mkacct "ach.Flatten" "originalFile.Control.TotalDebitEntryDollarAmountInFile" "value: the operand is a struct value (FileControl), selecting a field of it dereferences nothing (Gen/OpSites)";
+  mkacct "ach.Flatten" "newFile.Control.TotalDebitEntryDollarAmountInFile" "value: the operand is a struct value (FileControl), selecting a field of it dereferences nothing (Gen/OpSites)";
+  mkacct "ach.Flatten" "originalFile.Control.TotalCreditEntryDollarAmountInFile" "value: the operand is a struct value (FileControl), selecting a field of it dereferences nothing (Gen/OpSites)";
+  mkacct "ach.Flatten" "newFile.Control.TotalCreditEntryDollarAmountInFile" "value: the operand is a struct value (FileControl), selecting a field of it dereferences nothing (Gen/OpSites)";
+  mkacct "ach.canMerge" "traceNumbers[traceNumber]" "map: the operand is a map (map[string]bool); a map lookup never panics (Gen/OpSites)";
+  mkacct "ach.mergeableBatcher.GetHeaderSignature" "b.batcher.GetHeader().String" "ops-model: flatten_batches (TotalOps/TotalJson) dereferences this pointer; no panic on well-formed shapes (C06_ops_total_partial / C06_json_total_partial / C06_handlers_total_partial), panic reproduced on the others (correspondence c06ops)";
+  mkacct "ach.mergeableBatcher.GetBatchNumber" "b.batcher.GetHeader().BatchNumber" "ops-model: add_flattened (TotalOps/TotalJson) dereferences this pointer; no panic on well-formed shapes (C06_ops_total_partial / C06_json_total_partial / C06_handlers_total_partial), panic reproduced on the others (correspondence c06ops)";
+  mkacct "ach.mergeableBatcher.GetTraceNumbers" "b.traceNumbers[entry.TraceNumber]" "map: the operand is a map (map[string]bool); a map lookup never panics (Gen/OpSites)";
+  mkacct "ach.mergeableBatcher.Consume" "batcherToConsume.GetHeader().BatchNumber" "ops-model: flatten_batches (TotalOps/TotalJson) dereferences this pointer; no panic on well-formed shapes (C06_ops_total_partial / C06_json_total_partial / C06_handlers_total_partial), panic reproduced on the others (correspondence c06ops)";
+  mkacct "ach.mergeableBatcher.Consume" "m.batcher.GetHeader().BatchNumber" "ops-model: flatten_batches (TotalOps/TotalJson) dereferences this pointer; no panic on well-formed shapes (C06_ops_total_partial / C06_json_total_partial / C06_handlers_total_partial), panic reproduced on the others (correspondence c06ops)";
+  mkacct "ach.mergeableBatcher.AddToFile" "m.batcher.GetEntries()[i]" "sort-less: index parameters of the less function of sort.Slice over the same value (contract of package sort)";
+  mkacct "ach.mergeableBatcher.AddToFile" "m.batcher.GetEntries()[j]" "sort-less: index parameters of the less function of sort.Slice over the same value (contract of package sort)";
+  mkacct "ach.mergeableBatcher.AddToFile" "m.batcher.GetHeader().BatchNumber" "ops-model: add_flattened (TotalOps/TotalJson) dereferences this pointer; no panic on well-formed shapes (C06_ops_total_partial / C06_json_total_partial / C06_handlers_total_partial), panic reproduced on the others (correspondence c06ops)";
+  mkacct "ach.mergeableIATBatch.GetTraceNumbers" "b.traceNumbers[entry.TraceNumber]" "map: the operand is a map (map[string]bool); a map lookup never panics (Gen/OpSites)";
+  mkacct "ach.mergeableIATBatch.AddToFile" "m.iatBatch.Entries[i]" "sort-less: index parameters of the less function of sort.Slice over the same value (contract of package sort)";
+  mkacct "ach.mergeableIATBatch.AddToFile" "m.iatBatch.Entries[j]" "sort-less: index parameters of the less function of sort.Slice over the same value (contract of package sort)";
+  mkacct "ach.IATBatch.verify" "iatBatch.Control.ServiceClassCode" "ops-model: iat_verify (TotalOps/TotalJson) dereferences this pointer; no panic on well-formed shapes (C06_ops_total_partial / C06_json_total_partial / C06_handlers_total_partial), panic reproduced on the others (correspondence c06ops)";
+  mkacct "ach.IATBatch.verify" "iatBatch.Control.ODFIIdentification" "ops-model: iat_verify (TotalOps/TotalJson) dereferences this pointer; no panic on well-formed shapes (C06_ops_total_partial / C06_json_total_partial / C06_handlers_total_partial), panic reproduced on the others (correspondence c06ops)";
+  mkacct "ach.IATBatch.verify" "iatBatch.Control.BatchNumber" "ops-model: iat_verify (TotalOps/TotalJson) dereferences this pointer; no panic on well-formed shapes (C06_ops_total_partial / C06_json_total_partial / C06_handlers_total_partial), panic reproduced on the others (correspondence c06ops)";
+  mkacct "ach.IATBatch.verify" "iatBatch.Control.isAlphanumeric" "ops-model: iat_verify (TotalOps/TotalJson) dereferences this pointer; no panic on well-formed shapes (C06_ops_total_partial / C06_json_total_partial / C06_handlers_total_partial), panic reproduced on the others (correspondence c06ops)";
+  mkacct "ach.IATBatch.verify" "iatBatch.Control.CompanyIdentification" "ops-model: iat_verify (TotalOps/TotalJson) dereferences this pointer; no panic on well-formed shapes (C06_ops_total_partial / C06_json_total_partial / C06_handlers_total_partial), panic reproduced on the others (correspondence c06ops)";
+  mkacct "ach.IATBatch.isFieldInclusion" "entry.Addenda10.Validate" "nil-safe: method call on a possibly nil pointer whose method starts with `if recv == nil { return }` (Gen/OpSites.nil_safe_methods)";
+  mkacct "ach.IATBatch.isFieldInclusion" "entry.Addenda11.Validate" "nil-safe: method call on a possibly nil pointer whose method starts with `if recv == nil { return }` (Gen/OpSites.nil_safe_methods)";
+  mkacct "ach.IATBatch.isFieldInclusion" "entry.Addenda12.Validate" "nil-safe: method call on a possibly nil pointer whose method starts with `if recv == nil { return }` (Gen/OpSites.nil_safe_methods)";
+  mkacct "ach.IATBatch.isFieldInclusion" "entry.Addenda13.Validate" "nil-safe: method call on a possibly nil pointer whose method starts with `if recv == nil { return }` (Gen/OpSites.nil_safe_methods)";
+  mkacct "ach.IATBatch.isFieldInclusion" "entry.Addenda14.Validate" "nil-safe: method call on a possibly nil pointer whose method starts with `if recv == nil { return }` (Gen/OpSites.nil_safe_methods)";
+  mkacct "ach.IATBatch.isFieldInclusion" "entry.Addenda15.Validate" "nil-safe: method call on a possibly nil pointer whose method starts with `if recv == nil { return }` (Gen/OpSites.nil_safe_methods)";
+  mkacct "ach.IATBatch.isFieldInclusion" "entry.Addenda16.Validate" "nil-safe: method call on a possibly nil pointer whose method starts with `if recv == nil { return }` (Gen/OpSites.nil_safe_methods)";
+  mkacct "ach.IATBatch.isFieldInclusion" "iatBatch.Control.Validate" "ops-model: iat_is_field_inclusion (TotalOps/TotalJson) dereferences this pointer; no panic on well-formed shapes (C06_ops_total_partial / C06_json_total_partial / C06_handlers_total_partial), panic reproduced on the others (correspondence c06ops)";
+  mkacct "ach.IATBatch.isBatchEntryCount" "iatBatch.Control.EntryAddendaCount" "ops-model: iat_is_batch_entry_count (TotalOps/TotalJson) dereferences this pointer; no panic on well-formed shapes (C06_ops_total_partial / C06_json_total_partial / C06_handlers_total_partial), panic reproduced on the others (correspondence c06ops)";
+  mkacct "ach.IATBatch.isBatchAmount" "iatBatch.Control.TotalDebitEntryDollarAmount" "ops-model: iat_verify (TotalOps/TotalJson) dereferences this pointer; no panic on well-formed shapes (C06_ops_total_partial / C06_json_total_partial / C06_handlers_total_partial), panic reproduced on the others (correspondence c06ops)";
+  mkacct "ach.IATBatch.isBatchAmount" "iatBatch.Control.TotalCreditEntryDollarAmount" "ops-model: iat_verify (TotalOps/TotalJson) dereferences this pointer; no panic on well-formed shapes (C06_ops_total_partial / C06_json_total_partial / C06_handlers_total_partial), panic reproduced on the others (correspondence c06ops)";
+  mkacct "ach.IATBatch.isEntryHash" "iatBatch.Control.EntryHash" "ops-model: iat_verify (TotalOps/TotalJson) dereferences this pointer; no panic on well-formed shapes (C06_ops_total_partial / C06_json_total_partial / C06_handlers_total_partial), panic reproduced on the others (correspondence c06ops)";
+  mkacct "ach.IATBatch.isAddendaSequence" "entry.Addenda10.EntryDetailSequenceNumberField" "ops-model: iat_addenda_sequence_loop (TotalOps/TotalJson) dereferences this pointer; no panic on well-formed shapes (C06_ops_total_partial / C06_json_total_partial / C06_handlers_total_partial), panic reproduced on the others (correspondence c06ops)";
+  mkacct "ach.IATBatch.isAddendaSequence" "entry.Addenda11.EntryDetailSequenceNumberField" "ops-model: iat_addenda_sequence_loop (TotalOps/TotalJson) dereferences this pointer; no panic on well-formed shapes (C06_ops_total_partial / C06_json_total_partial / C06_handlers_total_partial), panic reproduced on the others (correspondence c06ops)";
+  mkacct "ach.IATBatch.isAddendaSequence" "entry.Addenda12.EntryDetailSequenceNumberField" "ops-model: iat_addenda_sequence_loop (TotalOps/TotalJson) dereferences this pointer; no panic on well-formed shapes (C06_ops_total_partial / C06_json_total_partial / C06_handlers_total_partial), panic reproduced on the others (correspondence c06ops)";
+  mkacct "ach.IATBatch.isAddendaSequence" "entry.Addenda13.EntryDetailSequenceNumberField" "ops-model: iat_addenda_sequence_loop (TotalOps/TotalJson) dereferences this pointer; no panic on well-formed shapes (C06_ops_total_partial / C06_json_total_partial / C06_handlers_total_partial), panic reproduced on the others (correspondence c06ops)";
+  mkacct "ach.IATBatch.isAddendaSequence" "entry.Addenda14.EntryDetailSequenceNumberField" "ops-model: iat_addenda_sequence_loop (TotalOps/TotalJson) dereferences this pointer; no panic on well-formed shapes (C06_ops_total_partial / C06_json_total_partial / C06_handlers_total_partial), panic reproduced on the others (correspondence c06ops)";
+  mkacct "ach.IATBatch.isAddendaSequence" "entry.Addenda15.EntryDetailSequenceNumberField" "ops-model: iat_addenda_sequence_loop (TotalOps/TotalJson) dereferences this pointer; no panic on well-formed shapes (C06_ops_total_partial / C06_json_total_partial / C06_handlers_total_partial), panic reproduced on the others (correspondence c06ops)";
+  mkacct "ach.IATBatch.isAddendaSequence" "entry.Addenda16.EntryDetailSequenceNumberField" "ops-model: iat_addenda_sequence_loop (TotalOps/TotalJson) dereferences this pointer; no panic on well-formed shapes (C06_ops_total_partial / C06_json_total_partial / C06_handlers_total_partial), panic reproduced on the others (correspondence c06ops)";
   mkacct "ach.IATBatch.isCategory" "iatBatch.GetEntries()[0]" "reviewed: verify() rejects a batch without entries before isCategory";
-  mkacct "ach.IATBatch.isCategory" "iatBatch.Entries[i]" "search-only: index variable bounded by a loop condition or an earlier check, not resolved by the translator";
-  mkacct "ach.IATBatch.Validate" "iatBatch.GetHeader().IATIndicator" "search-only: optional sub-record dereferenced without a syntactically dominating nil test (constructor / reader invariants are not modelled)";
-  mkacct "ach.IATBatch.Validate" "iatBatch.GetHeader().StandardEntryClassCode" "search-only: optional sub-record dereferenced without a syntactically dominating nil test (constructor / reader invariants are not modelled)";
+  mkacct "ach.IATBatch.isCategory" "iatBatch.Entries[i]" "loop-bound: index variable of the enclosing for loop over the same value, not assigned before the site (Gen/OpSites)";
+  mkacct "ach.IATBatch.Validate" "iatBatch.GetHeader().IATIndicator" "ops-model: iat_validate (TotalOps/TotalJson) dereferences this pointer; no panic on well-formed shapes (C06_ops_total_partial / C06_json_total_partial / C06_handlers_total_partial), panic reproduced on the others (correspondence c06ops)";
+  mkacct "ach.IATBatch.Validate" "iatBatch.GetHeader().StandardEntryClassCode" "ops-model: iat_validate (TotalOps/TotalJson) dereferences this pointer; no panic on well-formed shapes (C06_ops_total_partial / C06_json_total_partial / C06_handlers_total_partial), panic reproduced on the others (correspondence c06ops)";
   mkacct "ach.IATEntryDetail.SetRDFI" "s[:8]" "model:set_rdfi_total - s := stringField(rdfi, 9) has at least 9 bytes";
   mkacct "ach.IATEntryDetail.SetRDFI" "s[8:9]" "model:set_rdfi_total - s := stringField(rdfi, 9) has at least 9 bytes";
-  mkacct "ach.Iterator.NextEntry" "entries[len(entries)-1]" "search-only: last element after an emptiness check";
+  mkacct "ach.Iterator.NextEntry" "entries[len(entries)-1]" "last: x[len(x)-1] under a dominating test that x is not empty (Gen/OpSites)";
   mkacct "ach.ReadFiles" "out[i]" "search-only: index variable bounded by a loop condition or an earlier check, not resolved by the translator";
   mkacct "ach.trimSpacesFromLongLine" "s[:lineLength]" "model:trim_long_ok - called only when the rune count exceeds 94";
   mkacct "ach.Reader.parseLine" "r.line[:1]" "model:parse_line_total - every line given to parseLine has at least 53 bytes (read_line_other_total, read_line_first_total)";
@@ -225,15 +232,15 @@ Definition accounted : list acct := [
   mkacct "ach.Reader.parseBatchControl" "r.currentBatch.GetHeader().StandardEntryClassCode" "search-only: optional sub-record dereferenced without a syntactically dominating nil test (constructor / reader invariants are not modelled)";
   mkacct "ach.Reader.parseBatchControl" "r.currentBatch.GetADVControl().Parse" "search-only: optional sub-record dereferenced without a syntactically dominating nil test (constructor / reader invariants are not modelled)";
   mkacct "ach.Reader.parseBatchControl" "r.currentBatch.GetADVControl().LineNumber" "search-only: optional sub-record dereferenced without a syntactically dominating nil test (constructor / reader invariants are not modelled)";
-  mkacct "ach.Reader.parseBatchControl" "r.currentBatch.GetControl().SetValidation" "search-only: optional sub-record dereferenced without a syntactically dominating nil test (constructor / reader invariants are not modelled)";
+  mkacct "ach.Reader.parseBatchControl" "r.currentBatch.GetControl().SetValidation" "nil-safe: method call on a possibly nil pointer whose method starts with `if recv == nil { return }` (Gen/OpSites.nil_safe_methods)";
   mkacct "ach.Reader.parseBatchControl" "r.currentBatch.GetControl().Parse" "search-only: optional sub-record dereferenced without a syntactically dominating nil test (constructor / reader invariants are not modelled)";
   mkacct "ach.Reader.parseBatchControl" "r.currentBatch.GetControl().LineNumber" "search-only: optional sub-record dereferenced without a syntactically dominating nil test (constructor / reader invariants are not modelled)";
   mkacct "ach.Reader.parseBatchControl" "r.IATCurrentBatch.GetControl().Parse" "search-only: optional sub-record dereferenced without a syntactically dominating nil test (constructor / reader invariants are not modelled)";
   mkacct "ach.Reader.parseBatchControl" "r.IATCurrentBatch.GetControl().LineNumber" "search-only: optional sub-record dereferenced without a syntactically dominating nil test (constructor / reader invariants are not modelled)";
-  mkacct "ach.Reader.parseFileControl" "r.File.Control.Parse" "search-only: optional sub-record dereferenced without a syntactically dominating nil test (constructor / reader invariants are not modelled)";
-  mkacct "ach.Reader.parseFileControl" "r.File.Control.LineNumber" "search-only: optional sub-record dereferenced without a syntactically dominating nil test (constructor / reader invariants are not modelled)";
-  mkacct "ach.Reader.parseFileControl" "r.File.ADVControl.Parse" "search-only: optional sub-record dereferenced without a syntactically dominating nil test (constructor / reader invariants are not modelled)";
-  mkacct "ach.Reader.parseFileControl" "r.File.ADVControl.LineNumber" "search-only: optional sub-record dereferenced without a syntactically dominating nil test (constructor / reader invariants are not modelled)";
+  mkacct "ach.Reader.parseFileControl" "r.File.Control.Parse" "value: the operand is a struct value (FileControl), selecting a field of it dereferences nothing (Gen/OpSites)";
+  mkacct "ach.Reader.parseFileControl" "r.File.Control.LineNumber" "value: the operand is a struct value (FileControl), selecting a field of it dereferences nothing (Gen/OpSites)";
+  mkacct "ach.Reader.parseFileControl" "r.File.ADVControl.Parse" "value: the operand is a struct value (ADVFileControl), selecting a field of it dereferences nothing (Gen/OpSites)";
+  mkacct "ach.Reader.parseFileControl" "r.File.ADVControl.LineNumber" "value: the operand is a struct value (ADVFileControl), selecting a field of it dereferences nothing (Gen/OpSites)";
   mkacct "ach.Reader.parseIATAddenda" "r.IATCurrentBatch.GetEntries()[entryIndex]" "search-only: reader: entryIndex = len(entries)-1 computed after the empty check";
   mkacct "ach.Reader.switchIATAddenda" "r.line[1:3]" "model:parse_line_total";
   mkacct "ach.Reader.mandatoryOptionalIATAddenda" "r.line[1:3]" "model:parse_line_total";
@@ -241,22 +248,22 @@ Definition accounted : list acct := [
   mkacct "ach.Reader.nocIATAddenda" "r.IATCurrentBatch.Entries[entryIndex]" "search-only: reader: entryIndex = len(entries)-1 computed after the empty check";
   mkacct "ach.Reader.returnIATAddenda" "r.IATCurrentBatch.Entries[entryIndex]" "search-only: reader: entryIndex = len(entries)-1 computed after the empty check";
   mkacct "ach.CheckRoutingNumber" "routingNumber[len(routingNumber)-1]" "search-only: last element after an emptiness check";
-  mkacct "ach.Writer.writeBatch" "batch.GetHeader().StandardEntryClassCode" "search-only: optional sub-record dereferenced without a syntactically dominating nil test (constructor / reader invariants are not modelled)";
-  mkacct "server.createFileEndpoint" "req.File.ID" "search-only: optional sub-record dereferenced without a syntactically dominating nil test (constructor / reader invariants are not modelled)";
-  mkacct "server.createFileEndpoint" "req.File.SetValidation" "search-only: optional sub-record dereferenced without a syntactically dominating nil test (constructor / reader invariants are not modelled)";
-  mkacct "server.repositoryInMemory.StoreFile" "r.files[f.ID]" "search-only: index variable bounded by a loop condition or an earlier check, not resolved by the translator";
-  mkacct "server.repositoryInMemory.FindFile" "r.files[id]" "search-only: index variable bounded by a loop condition or an earlier check, not resolved by the translator";
-  mkacct "server.repositoryInMemory.StoreBatch" "r.files[fileID]" "search-only: index variable bounded by a loop condition or an earlier check, not resolved by the translator";
-  mkacct "server.repositoryInMemory.FindBatch" "r.files[fileID]" "search-only: index variable bounded by a loop condition or an earlier check, not resolved by the translator";
-  mkacct "server.repositoryInMemory.FindAllBatches" "r.files[fileID]" "search-only: index variable bounded by a loop condition or an earlier check, not resolved by the translator";
-  mkacct "server.repositoryInMemory.DeleteBatch" "r.files[fileID]" "search-only: index variable bounded by a loop condition or an earlier check, not resolved by the translator";
-  mkacct "server.repositoryInMemory.DeleteBatch" "file.Batches[i]" "search-only: index variable bounded by a loop condition or an earlier check, not resolved by the translator";
+  mkacct "ach.Writer.writeBatch" "batch.GetHeader().StandardEntryClassCode" "ops-model: write_batch (TotalOps/TotalJson) dereferences this pointer; no panic on well-formed shapes (C06_ops_total_partial / C06_json_total_partial / C06_handlers_total_partial), panic reproduced on the others (correspondence c06ops)";
+  mkacct "server.createFileEndpoint" "req.File.ID" "ops-model: handle (RCreateFile) (TotalOps/TotalJson) dereferences this pointer; no panic on well-formed shapes (C06_ops_total_partial / C06_json_total_partial / C06_handlers_total_partial), panic reproduced on the others (correspondence c06ops)";
+  mkacct "server.createFileEndpoint" "req.File.SetValidation" "nil-safe: method call on a possibly nil pointer whose method starts with `if recv == nil { return }` (Gen/OpSites.nil_safe_methods)";
+  mkacct "server.repositoryInMemory.StoreFile" "r.files[f.ID]" "map: the operand is a map (map[string]*File); a map lookup never panics (Gen/OpSites)";
+  mkacct "server.repositoryInMemory.FindFile" "r.files[id]" "map: the operand is a map (map[string]*File); a map lookup never panics (Gen/OpSites)";
+  mkacct "server.repositoryInMemory.StoreBatch" "r.files[fileID]" "map: the operand is a map (map[string]*File); a map lookup never panics (Gen/OpSites)";
+  mkacct "server.repositoryInMemory.FindBatch" "r.files[fileID]" "map: the operand is a map (map[string]*File); a map lookup never panics (Gen/OpSites)";
+  mkacct "server.repositoryInMemory.FindAllBatches" "r.files[fileID]" "map: the operand is a map (map[string]*File); a map lookup never panics (Gen/OpSites)";
+  mkacct "server.repositoryInMemory.DeleteBatch" "r.files[fileID]" "map: the operand is a map (map[string]*File); a map lookup never panics (Gen/OpSites)";
+  mkacct "server.repositoryInMemory.DeleteBatch" "file.Batches[i]" "loop-bound: index variable of the enclosing for loop over the same value, not assigned before the site (Gen/OpSites)";
   mkacct "server.repositoryInMemory.DeleteBatch" "file.Batches[:i]" "loop index: i ranges over the sliced value (remove element i)";
   mkacct "server.repositoryInMemory.DeleteBatch" "file.Batches[i+1:]" "loop index: i ranges over the sliced value (remove element i)";
-  mkacct "server.marshalStructWithError" "out[name]" "search-only: index variable bounded by a loop condition or an earlier check, not resolved by the translator";
-  mkacct "server.service.CreateFile" "f.Control.ID" "search-only: optional sub-record dereferenced without a syntactically dominating nil test (constructor / reader invariants are not modelled)";
-  mkacct "server.service.CreateBatch" "batch.GetHeader().ID" "search-only: optional sub-record dereferenced without a syntactically dominating nil test (constructor / reader invariants are not modelled)";
-  mkacct "server.service.CreateBatch" "batch.GetControl().ID" "search-only: optional sub-record dereferenced without a syntactically dominating nil test (constructor / reader invariants are not modelled)"
+  mkacct "server.marshalStructWithError" "out[name]" "map: the operand is a map (map[string]interface{}); a map lookup never panics (Gen/OpSites)";
+  mkacct "server.service.CreateFile" "f.Control.ID" "value: the operand is a struct value (FileControl), selecting a field of it dereferences nothing (Gen/OpSites)";
+  mkacct "server.service.CreateBatch" "batch.GetHeader().ID" "ops-model: create_batch (TotalOps/TotalJson) dereferences this pointer; no panic on well-formed shapes (C06_ops_total_partial / C06_json_total_partial / C06_handlers_total_partial), panic reproduced on the others (correspondence c06ops)";
+  mkacct "server.service.CreateBatch" "batch.GetControl().ID" "ops-model: create_batch (TotalOps/TotalJson) dereferences this pointer; no panic on well-formed shapes (C06_ops_total_partial / C06_json_total_partial / C06_handlers_total_partial), panic reproduced on the others (correspondence c06ops)"
 ].
 
 (* The slices of the source that the Gallina functions of Totality.v transcribe, with the bounds
